@@ -816,8 +816,11 @@ def run(rep: C.Report, tier: str) -> int:
             "Matrix/ListOps.v (executable matrix instance; inverse verified at run time)"],
         rule="configurations walk kernel (SE, RQ, SE+WN, RQ+WN, SE+RQ, CP(SE,SE), SE+SE+WN) x mean (3) x errors "
              "(y_err, none, diagonal y_cov, full y_cov); n 2..7, d 1..3; theta random, resampled until "
-             "cond(K_xx+S) <= 1e4; score-value goals on the first cases with n <= 4; optimiser runs: 6 (quick) / 8 "
-             "seeded real runs (L-BFGS-B multistart with ML and LOO criteria, differential evolution); every case "
+             "cond(K_xx+S) <= 1e4; score-value goals on the first cases with n <= 4; large data sets (n 60..400, small / no "
+             "y_err or amplitude 1e3..1e4: prod diag L outside the double range) with ml_value goals on the code's own "
+             "factor; optimiser runs: 6 (quick) / 8 seeded real runs (L-BFGS-B multistart with ML and LOO criteria, "
+             "differential evolution) + 8 / 24 runs of the real multistart selection under a scripted optimiser that "
+             "meets the contract of C11_multistart_not_worse_than_centre and is otherwise arbitrary; every case "
              "non-trivial; distinct = distinct configurations")
 
 
